@@ -171,6 +171,118 @@ def _apply_common(piece, blk):
             piece.counts['match_str_desugar'] -= 1
         piece.replace_tokens(close_i, close_i, '', 'match_str_desugar')
         piece.counts['match_str_desugar'] -= 1
+    for anchor in blk.get('match_pair_desugar', []):
+        # `match (a, b) { (P1, "lit") => X, (P1, p) if G => Y, (P1, p) => Z, _ => W }` becomes the if / else-if chain that is its meaning:
+        # `{ let vx_a = a; let vx_b = b; if is(P1, vx_a) && vx_b == "lit" { X } else if is(P1, vx_a) && { let p = vx_b; G } { let p = vx_b; Y } ... else { W } }`
+        # (Verus gives a match on string literals only the forward direction and has no reference patterns). Only the patterns and the
+        # arrows are replaced; guards and arm bodies stay source tokens. anchor = `match (a, b) {`
+        hits, n = piece.find(anchor, unique=False, what='match_pair_desugar')
+        if len(hits) != 1:
+            piece.counts['hint_skipped'] = piece.counts.get('hint_skipped', 0) + 1
+            continue
+        s_ = piece.src.s
+        h = hits[0]
+        open_i = h + n - 1
+        close_i = rtok.match_close(s_, open_i)
+        # scrutinee `( a , b )`
+        sc_open = h + 1
+        sc_close = rtok.match_close(s_, sc_open)
+        depth, comma = 0, None
+        for j in range(sc_open + 1, sc_close):
+            t = s_[j].text
+            if t in rtok.OPEN: depth += 1
+            elif t in rtok.CLOSE: depth -= 1
+            elif t == ',' and depth == 0 and comma is None: comma = j
+        if s_[sc_open].text != '(' or comma is None:
+            piece.counts['hint_skipped'] = piece.counts.get('hint_skipped', 0) + 1
+            continue
+        ea = ' '.join(t.text for t in s_[sc_open + 1:comma])
+        eb = ' '.join(t.text for t in s_[comma + 1:sc_close])
+        k = open_i + 1
+        first, ok, edits = True, True, []
+        while k < close_i and ok:
+            a0 = k
+            bind, conds = None, []
+            if s_[k].text == '_':
+                k += 1
+                wildcard = True
+            elif s_[k].text == '(':
+                wildcard = False
+                pc = rtok.match_close(s_, k)
+                depth, cm = 0, None
+                for j in range(k + 1, pc):
+                    t = s_[j].text
+                    if t in rtok.OPEN: depth += 1
+                    elif t in rtok.CLOSE: depth -= 1
+                    elif t == ',' and depth == 0 and cm is None: cm = j
+                if cm is None:
+                    ok = False
+                    break
+                p1 = [t.text for t in s_[k + 1:cm]]
+                p2 = [t.text for t in s_[cm + 1:pc]]
+                if p1 != ['_']:
+                    if p1 and p1[0] == '&':
+                        conds.append('(match *vx_a { ' + ' '.join(p1[1:]) + ' => true, _ => false })')
+                    else:
+                        conds.append('(match vx_a { ' + ' '.join(p1) + ' => true, _ => false })')
+                if len(p2) == 1 and p2[0].startswith('"'):
+                    conds.append(f'vx_b == {p2[0]}')
+                elif len(p2) == 1 and re.match(r'^[a-z_][A-Za-z0-9_]*$', p2[0]) and p2[0] != '_':
+                    bind = p2[0]
+                elif p2 != ['_']:
+                    ok = False
+                    break
+                k = pc + 1
+            else:
+                ok = False
+                break
+            guard_from = None
+            if s_[k].text == 'if':
+                guard_from = k
+                while s_[k].text != '=>':
+                    k += 1
+            if s_[k].text != '=>':
+                ok = False
+                break
+            arrow = k
+            b0 = arrow + 1
+            if s_[b0].text == '{':
+                b1 = rtok.match_close(s_, b0)
+            else:
+                depth, j = 0, b0
+                while j < close_i and not (s_[j].text == ',' and depth == 0):
+                    if s_[j].text in rtok.OPEN: depth += 1
+                    elif s_[j].text in rtok.CLOSE: depth -= 1
+                    j += 1
+                b1 = j - 1
+            let = f'let {bind} = vx_b; ' if bind else ''
+            kw = ('if ' if first else 'else if ')
+            if wildcard and guard_from is None:
+                edits.append((a0, arrow, ('' if first else 'else ') + '{ '))
+            elif guard_from is None:
+                edits.append((a0, arrow, kw + (' && '.join(conds) or 'true') + ' { ' + let))
+            else:
+                # pattern part up to and including `if`, then the guard (source), then the arrow
+                edits.append((a0, guard_from, kw + ' && '.join(conds + ['{ ' + let])))
+                edits.append((arrow, arrow, ' } { ' + let))
+            nxt = b1 + 1
+            if nxt < close_i and s_[nxt].text == ',':
+                edits.append((nxt, nxt, ' }'))
+                nxt += 1
+            else:
+                edits.append(('after', b1, ' }'))
+            k = nxt
+            first = False
+        if not ok:
+            piece.counts['hint_skipped'] = piece.counts.get('hint_skipped', 0) + 1
+            continue
+        piece.replace_tokens(h, open_i, f'{{ let vx_a = {ea}; let vx_b = {eb}; ', 'match_pair_desugar')
+        for a_, b_, txt in edits:
+            if a_ == 'after':
+                piece.insert_after(b_, txt, 'match_pair_desugar')
+            else:
+                piece.replace_tokens(a_, b_, txt, 'match_pair_desugar')
+            piece.counts['match_pair_desugar'] -= 1
     for anchor in blk.get('for_desugar', []):
         # `for PAT in EXPR {`  ->  `let mut vx_it = (EXPR).into_iter(); while let Some(PAT) = vx_it.next() {`
         # (Rust's own definition of `for`; Verus supports continue only in while loops). anchor = `for PAT in`
@@ -190,6 +302,101 @@ def _apply_common(piece, blk):
         piece.replace_tokens(h, h + n - 1, 'let mut vx_it = (', 'for_desugar')
         piece.insert_before(k, f').into_iter(); while let Some({pat}) = vx_it.next() ', 'for_desugar')
         piece.counts['for_desugar'] -= 1
+    if blk.get('format_desugar'):
+        # format!("a{}b{}c", x, y) with plain `{}` placeholders becomes vx_fmt_lit("a").arg(&(x)).lit("b").arg(&(y)).lit("c").done()
+        # (empty pieces dropped): only the macro's punctuation and its literal are replaced, the argument expressions stay source
+        # tokens. Any other format string ({:?}, {name}, {{) is left alone.
+        s_ = piece.src.s
+        hits, n = piece.find('format!(', unique=False, what='format_desugar')
+        for h in hits:
+            opener = h + n - 1
+            closer = rtok.match_close(s_, opener)
+            lit = s_[opener + 1]
+            if not (lit.text.startswith('"') and lit.text.endswith('"')):
+                continue
+            body = lit.text[1:-1]
+            if '{{' in body or '}}' in body or re.search(r'\{[^}]+\}', body):
+                continue
+            parts = body.split('{}')
+            # top-level commas
+            commas, depth, k = [], 0, opener + 2
+            while k < closer:
+                t = s_[k].text
+                if t in rtok.OPEN: depth += 1
+                elif t in rtok.CLOSE: depth -= 1
+                elif t == ',' and depth == 0: commas.append(k)
+                k += 1
+            trailing = bool(commas) and commas[-1] == closer - 1
+            nargs = len(commas) - (1 if trailing else 0)
+            if nargs != len(parts) - 1 or (nargs and commas[0] != opener + 2):
+                continue
+            def q(x): return '"' + x + '"'
+            first = True
+            head = ''
+            if parts[0]:
+                head = f'vx_fmt_lit({q(parts[0])})'
+                first = False
+            if nargs == 0:
+                piece.replace_tokens(h, closer, (head or 'vx_fmt_lit("")') + '.done()', 'format_desugar')
+                continue
+            # `format ! ( "lit" ,`  ->  head + first arg opener
+            for i in range(nargs):
+                c = commas[i]
+                pre = ''
+                if i > 0:
+                    pre = '))' + (f'.lit({q(parts[i])})' if parts[i] else '')
+                opn = ('vx_fmt_arg(&(' if first else '.arg(&(')
+                first = False
+                if i == 0:
+                    piece.replace_tokens(h, c, head + opn, 'format_desugar')
+                else:
+                    piece.replace_tokens(c, c, pre + opn, 'format_desugar')
+            tail = '))' + (f'.lit({q(parts[-1])})' if parts[-1] else '') + '.done()'
+            if trailing:
+                piece.replace_tokens(commas[-1], closer, tail, 'format_desugar')
+            else:
+                piece.replace_tokens(closer, closer, tail, 'format_desugar')
+    if blk.get('json_desugar'):
+        # serde_json::json!({ "k": <expr>, ... }) with a FLAT object of string-literal keys becomes the builder chain
+        # serde_json::vx_obj().with("k", <expr>) ... .vx_done(): only the punctuation of the macro call is replaced, the value
+        # expressions stay source tokens. Any other json!(..) shape is left alone (for an elide_arg rule, or a compile error).
+        s_ = piece.src.s
+        hits, n = piece.find('serde_json::json!(', unique=False, what='json_desugar')
+        for h in hits:
+            opener = h + n - 1
+            closer = rtok.match_close(s_, opener)
+            if s_[opener + 1].text != '{' or rtok.match_close(s_, opener + 1) != closer - 1:
+                continue
+            entries, k, ok = [], opener + 2, True
+            while k < closer - 1:
+                if s_[k].kind != 'string' and not s_[k].text.startswith('"'):
+                    ok = False
+                    break
+                if s_[k + 1].text != ':':
+                    ok = False
+                    break
+                v0 = k + 2
+                depth, j = 0, v0
+                while j < closer - 1 and not (s_[j].text == ',' and depth == 0):
+                    if s_[j].text in rtok.OPEN: depth += 1
+                    elif s_[j].text in rtok.CLOSE: depth -= 1
+                    j += 1
+                if j == v0 or s_[v0].text in ('{', '['):
+                    ok = False
+                    break
+                entries.append((k, v0, j))       # key token, first value token, index of the `,` (or of the closing `}`)
+                k = j + 1 if j < closer - 1 else j
+            if not ok or not entries:
+                continue
+            # `json ! ( {`  ->  `vx_obj()`
+            piece.replace_tokens(opener - 2, opener + 1, 'vx_obj()', 'json_desugar')
+            for (kt, v0, j) in entries:
+                piece.replace_tokens(kt, kt + 1, f'.with({s_[kt].text},', 'json_desugar')
+                if j < closer - 1:
+                    piece.replace_tokens(j, j, ')', 'json_desugar')
+                else:
+                    piece.insert_before(j, ')', 'json_desugar')
+            piece.replace_tokens(closer - 1, closer, '.vx_done()', 'json_desugar')
     for anchor, repl in blk.get('elides', []):
         # replace the whole argument list of every call `<anchor>` (anchor ends with `(`) by `repl`:
         # the dropped argument (a closure / async block) is verified separately as a slice
@@ -542,8 +749,14 @@ def generate(repo, template_text, variables=None):
                 blk.setdefault('extend_if_next', []).append(rest)
             elif d == 'match_str_desugar':
                 blk.setdefault('match_str_desugar', []).append(rest)
+            elif d == 'match_pair_desugar':
+                blk.setdefault('match_pair_desugar', []).append(rest)
             elif d == 'for_desugar':
                 blk.setdefault('for_desugar', []).append(rest)
+            elif d == 'json_desugar':
+                blk['json_desugar'] = True
+            elif d == 'format_desugar':
+                blk['format_desugar'] = True
             elif d == 'elide_arg':
                 frm, to = re.split(r'(?<!<)==>', rest, maxsplit=1)
                 blk.setdefault('elides', []).append((frm.strip(), to.strip()))
